@@ -94,13 +94,14 @@ class Target:
     run(env, cfg, case) executes the case against the oracle, raises Violation, returns True when the
     case is non-trivial by the property's rule (or a (nontrivial, labels) tuple)."""
 
-    def __init__(self, name, strategy, run, cfgs, quick, thorough, needs=None, max_size=None):
+    def __init__(self, name, strategy, run, cfgs, quick, thorough, needs=None, max_size=None, job_size=None):
         self.name = name
         self.strategy = strategy
         self.run = run
         self.cfgs = cfgs            # {"quick": [...], "thorough": [...]}
         self.examples = {"quick": quick, "thorough": thorough}   # examples per (cfg) in total
         self.needs = needs          # optional predicate(env, cfg) -> bool (supported?)
+        self.job_size = job_size    # optional {"quick": n, "thorough": m} overriding the module's JOB_SIZE
 
 
 # ---------------------------------------------------------------------------------- known findings
@@ -274,6 +275,7 @@ def _write_replay(prop, rec):
 
 def run_check(prop, tier, seed, jobs=16, only=None, scale=1.0):
     t0 = time.time()
+    os.environ["VERIF_TIER_ACTIVE"] = tier
     modname = "props.%s" % prop.lower()
     mod = importlib.import_module(modname)
     os.makedirs(os.path.join(VERIF, ".work"), exist_ok=True)
@@ -320,7 +322,8 @@ def run_check(prop, tier, seed, jobs=16, only=None, scale=1.0):
             if c in unsupported_cfgs:
                 continue
             n = max(1, int(t.examples[tier] * scale))
-            parts = max(1, (n + per_job - 1) // per_job)
+            pj = t.job_size[tier] if t.job_size else per_job
+            parts = max(1, (n + pj - 1) // pj)
             for i in range(parts):
                 k += 1
                 joblist.append(dict(module=modname, target=t.name, cfg=c, n=(n + parts - 1) // parts,
